@@ -20,6 +20,7 @@ aa,<s>,<o>  ma,<s>,<o>           append_all_results / merge_all_results
 mao,<s>,<o>                      merge_all_results of the source before the repair (model only)
 cb,<s1>,<s2>                     s<k> = combine_simulation_results(s1, s2)
 g,<ref> mn,<ref> vr,<ref>        get_result / get_result_mean / get_result_var
+ro,<s>,<n1:n2:…>                 same result set with its results added in the order n1, n2, …
 up,<s>                           s.params.unpacked_parameters (parameter names are sent hex(utf-8) encoded)
 eq,<ref>,<ref>                   a == b
 ```
@@ -189,6 +190,13 @@ def stepOp (st : St) (i : Nat) (op : String) : Option St :=
       let a ← resolve st ref
       let r ← st.m.res[a]?
       pure (out st i (showER (getVar r)))
+  | ["ro", s, names] => do  -- the results of s were added in this order (must name every result once)
+      let s ← s.toNat?
+      let ns := fields names ":"
+      let d := dictOf st.m s
+      if s < st.m.sims.length ∧ ns.length = d.length ∧ (d.all fun e => ns.contains e.1) ∧ ns.Nodup then
+        pure { st with m := reorderSim st.m s ns }
+      else none
   | ["up", s] => do      -- params.unpacked_parameters: the names in the order of the grid axes
       let s ← s.toNat?
       let x ← st.m.sims[s]?
